@@ -191,7 +191,7 @@ func TestC14_Objects(t *testing.T) {
 	runRapid(t, c, 700, 9000, func(rt *rapid.T) {
 		var cs detCase
 		cs.Kind = "objects"
-		forms := []string{"{{ %s }}", "@dump(%s)", "{{ [%s, 1] }}", "@each(o in [%s]){{ o }}@end", "{{ x = %s; x }}", "@dump([%s])", "{{ [%s].join('|') }}", "@if(true){{ %s }}@end"}
+		forms := []string{"{{ %s }}", "@dump(%s)", "{{ [%s, 1] }}", "@each(o in [%s]){{ o }}@end", "{{ x = %s; x }}", "@dump([%s])", "{{ [%s].join('|') }}", "@if(true){{ %s }}@end", "{{ 'say \"hi\" & <go>' }}{{ %s }}{{ \"it's\" }}"}
 		form := rapid.SampledFrom(forms).Draw(rt, "form")
 		if rapid.Bool().Draw(rt, "fromData") {
 			cs.Data = (&spec.Data{}).Add("obj", genObjData(rt, 1))
